@@ -3,14 +3,9 @@ import Adsb.Frame
 
 namespace Adsb
 
-/-- the value `modes_checksum` returns on the first `n` bytes -/
-def crcVal (msg : List UInt8) (n : Nat) : Nat :=
-  crcRem (msg.take (n - 3)) ^^^
-    (((msg.getD (n - 3) 0).toNat <<< 16) ^^^ ((msg.getD (n - 2) 0).toNat <<< 8) ^^^ (msg.getD (n - 1) 0).toNat)
-
 theorem modesChecksum_ok (msg : List UInt8) (bits : Nat) (h3 : 3 ≤ bits / 8) (hl : bits / 8 ≤ msg.length) :
     modesChecksum msg bits = .ok (crcVal msg (bits / 8)) := by
-  unfold modesChecksum crcVal
+  unfold modesChecksum
   have : ¬ (bits / 8 < 3 ∨ msg.length < bits / 8) := by omega
   simp [this]
 
@@ -22,14 +17,13 @@ theorem modesChecksum_short (msg : List UInt8) (bits : Nat) (hl : msg.length < b
 /-- the checksum only looks at the first `n` bytes -/
 theorem crcVal_take (msg : List UInt8) (n k : Nat) (h3 : 3 ≤ n) (hk : n ≤ k) :
     crcVal (msg.take k) n = crcVal msg n := by
-  unfold crcVal
+  unfold crcVal tail24
   have e1 : (msg.take k).take (n - 3) = msg.take (n - 3) := by
     rw [List.take_take]; congr 1; omega
   have g : ∀ i, i < k → (msg.take k).getD i 0 = msg.getD i 0 := by
     intro i hi
-    simp [List.getD_eq_getElem?_getD, List.getElem?_take, hi]
+    simp [List.getD_eq_getElem?_getD, hi]
   rw [e1, g (n - 3) (by omega), g (n - 2) (by omega), g (n - 1) (by omega)]
-
 
 /-- the checksum window when the decoder consumed `hi` bytes and the format needs `bits` bits -/
 theorem modesChecksum_take (msg : List UInt8) (bits k : Nat) (h3 : 3 ≤ bits / 8) (hk : bits / 8 ≤ k)
